@@ -25,3 +25,33 @@ def match(findings, viol, inp):
         except Exception:
             continue
     return None
+
+
+# ---- C34: a leaf board named "index" is written to the same file as its parent board ------------
+def _index_collisions(boards):
+    """number of leaf boards named 'index' whose parent has sub-boards of a single kind"""
+    n = 0
+    kinds = {b["kind"] for b in boards}
+    for b in boards:
+        ch = b.get("children") or []
+        if b["name"] == "index" and not ch and len(kinds) == 1:
+            n += 1
+        n += _index_collisions(ch)
+    return n
+
+
+@classifier("c34_index_board")
+def c34_index_board(viol, inp, param):
+    if inp.get("mode") != "boards":
+        return False
+    pred = _index_collisions(inp.get("boards") or [])
+    if pred == 0:
+        return False
+    d = json.loads(viol["detail"])
+    if viol["aspect"] == "output-file-produced-twice":
+        paths = d[1]["__set__"] if isinstance(d[1], dict) else d[1]
+        return all(re.search(r"(^|/)index\.svg$", p) for p in paths)
+    if viol["aspect"] == "files-written-vs-boards-rendered":
+        files, boards = d
+        return boards - files == pred
+    return False
